@@ -18,7 +18,7 @@ COMMON_ASSUME = [
 
 PROPS = {
     "C02": {
-        "rules": ["R-IDGUARD", "R-ACCEPT", "R-ALPHAGUARD", "R-NOTFOUND", "R-SCANEXIT", "R-PURE-BASIC", "R-BYTEINDEX", "R-SENTINEL", "R-CMPEND", "R-SCANLEN"],
+        "rules": ["R-IDGUARD", "R-ACCEPT", "R-ALPHAGUARD", "R-NOTFOUND", "R-SCANEXIT", "R-PURE-BASIC", "R-BYTEINDEX", "R-SENTINEL", "R-CMPEND", "R-SCANLEN", "R-PREDINDEX"],
         "explanation": "CFG edge-dominance rules: every use of the id in the 13 extract overrides is dominated by both range tests and the "
                        "failing path stores length 0 and returns NULL; in the six hash lookups an ID is returned only under a successful full "
                        "comparison, each probe is preceded by the occupied-cell test, the probe loop is bounded by the table size; XBW accepts only "
@@ -33,7 +33,8 @@ PROPS = {
                     "tables indexed by an arbitrary byte value have >= 256 entries on every path that creates them, loaders included (R-BYTEINDEX)",
                     "the hash lookups' all-ones `not found` sentinel is produced at the width of their return type, so locate's `search()+1` wraps to NORESULT (R-SENTINEL)",
                     "comparators that take the pattern length report a match only where the end of the pattern has been observed (R-CMPEND)",
-                    "the scans that derive the FM-index / XBW alphabet and maximum symbol cover exactly the sequence handed to the wavelet-tree builder (R-SCANLEN)"],
+                    "the scans that derive the FM-index / XBW alphabet and maximum symbol cover exactly the sequence handed to the wavelet-tree builder (R-SCANLEN)",
+                    "the block selector takes the predecessor of a bound-search position only where that position is not the beginning (R-PREDINDEX)"],
         "not_decided": ["that the comparison routines compare correctly", "reads inside decoders for absent strings in front-coded buckets (bounded only by run-time offsets)"],
         "assumptions": COMMON_ASSUME,
     },
@@ -98,7 +99,7 @@ PROPS = {
         "assumptions": COMMON_ASSUME,
     },
     "C07": {
-        "rules": ["R-STATE", "R-INITCOVER", "R-EXTENT", "R-KILLUSE", "R-DANGLING", "R-ALPHAGUARD", "R-DEDUP", "R-IDGUARD", "R-SHIFT", "R-CLAMP", "R-ZEROFILL", "R-GROW", "R-SLACK", "R-ALLOCFORM", "R-LOCKSET", "R-BYTEINDEX", "R-REFCOUNT", "R-COUNTERWIDTH", "R-BUCKET"],
+        "rules": ["R-STATE", "R-INITCOVER", "R-EXTENT", "R-KILLUSE", "R-DANGLING", "R-ALPHAGUARD", "R-DEDUP", "R-IDGUARD", "R-SHIFT", "R-CLAMP", "R-ZEROFILL", "R-GROW", "R-SLACK", "R-ALLOCFORM", "R-LOCKSET", "R-BYTEINDEX", "R-REFCOUNT", "R-COUNTERWIDTH", "R-BUCKET", "R-PREDINDEX"],
         "explanation": "Structural preconditions of memory safety, each a necessary condition with confirmed instances: no operation consults state the "
                        "creation path never set, saved extents equal allocated extents, nothing reachable from a dictionary is freed by an operation or "
                        "left dangling by a loader, pattern bytes are range-checked before indexing, duplicate iterators have their sentinel, ids are "
@@ -111,7 +112,8 @@ PROPS = {
                     "tables indexed by an arbitrary byte value have >= 256 entries on every path that creates them, loaders included (R-BYTEINDEX)",
                     "the RRR offset table shared through a static pointer is acquired once by every constructor and released with the pointer reset (R-REFCOUNT)",
                     "no length / size handed to a container is counted in a local narrower than 32 bits (R-COUNTERWIDTH)",
-                    "the scan bound of the last (partial) bucket is taken for the bucket that is actually scanned (R-BUCKET)"],
+                    "the scan bound of the last (partial) bucket is taken for the bucket that is actually scanned (R-BUCKET)",
+                    "the block selector takes the predecessor of a bound-search position only where that position is not the beginning (R-PREDINDEX)"],
         "not_decided": ["all index arithmetic over decoded data (bucket scans, chunk decoding with b_remain, expandRule recursion depth, scratch buffers sized "
                         "from maxlength/maxcomplength), buffer growth estimates, suffix sorting on tiny inputs, termination: a pass means the structural "
                         "preconditions hold, not that the library is memory safe"],
